@@ -28,8 +28,11 @@ Types == {"CoseSign1", "CoseSign", "CoseMac", "CoseMac0", "CoseEncrypt", "CoseEn
 
 HXr == [EmptyHeader EXCEPT !.rest = << <<Z2I(99), Nat2I(1)>> >>]          \* extras only: differs from the empty header only outside the typed fields
 Common == {[ev |-> "call", m |-> "protected", hdr |-> h] : h \in {H1, H2, EmptyHeader, HXr}} \cup {[ev |-> "call", m |-> "unprotected", hdr |-> U1]}
+(* a nested layer of recipients: what is created for / decrypted from the OUTER layer must not depend on it (round 6) *)
+RcpIn == [prot |-> EmptyProt, unprot |-> EmptyHeader, cipher |-> <<<<9>>>>, recips |-> <<>>]
+AddRcp(ty) == IF ty \in {"CoseMac", "CoseEncrypt", "CoseRecipient"} THEN {[ev |-> "call", m |-> "add_recipient", rcp |-> RcpIn]} ELSE {}
 Calls(ty) ==
-  Common \cup
+  Common \cup AddRcp(ty) \cup
   CASE ty = "CoseSign1" ->
          {[ev |-> "call", m |-> "payload", bytes |-> p] : p \in {P1, P2}} \cup {[ev |-> "call", m |-> "signature", bytes |-> <<9>>]}
          \cup {[ev |-> "call", m |-> "create_signature", aad |-> a, res |-> ROk(<<1, 1>>)] : a \in {A1, A2}}
